@@ -14,13 +14,13 @@ TRUSTED = [
 ]
 
 
-def pure(ctx, mode, module, what, samples_fn, extra_assumptions):
+def pure(ctx, mode, module, what, samples_fn, extra_assumptions, package="pure_harness", trusted=None):
     tr_ok = translator(ctx)
     banned_scan(ctx)
     lean_build(ctx, [module])
     if ctx.tier == "thorough" and not ctx.tie_broken:
         leanchecker(ctx, [module])
-    binp, err = cargo_build(ctx, "pure_harness")
+    binp, err = cargo_build(ctx, package)
     out = os.path.join(ctx.scratch, "run")
     stats = {}
     if binp is None:
@@ -51,6 +51,10 @@ def pure(ctx, mode, module, what, samples_fn, extra_assumptions):
                     ctx.tie_broken.append("wdriver could not be run")
     ops_sample = []
     try:
+        ops_sample = [l for l in open(os.path.join(out, "samples.txt"), encoding="utf-8").read().split("\n") if l]
+    except Exception:  # noqa
+        pass
+    try:
         with open(os.path.join(out, "ops.txt")) as f, open(os.path.join(out, "impl.txt")) as g:
             ops = f.read().split("\n")
             imp = g.read().split("\n")
@@ -72,7 +76,7 @@ def pure(ctx, mode, module, what, samples_fn, extra_assumptions):
         "search": {"oracle_violations": stats.get("oracle_violations"), "requests": stats.get("requests")},
     })
     ctx.assumptions = extra_assumptions
-    finish(ctx, trusted_base=TRUSTED)
+    finish(ctx, trusted_base=trusted or TRUSTED)
 
 
 def check_c14(ctx):
